@@ -219,6 +219,8 @@ def regression (cls : String) : List (List Val) :=
   else if cls == "StreamFeatures" then
     [[.absent, .absent, .absent, .absent, .absent, .absent, .absent, .absent, .absent,
       .record [.list []], .record [.list []], .record sasl2]]
+  else if cls == "ResultSetReply" then               -- "count unset" came back as 0 before /repo 4885fb5
+    [[.record [.record [.opt none, .str "a".toList], .absent, .record [.opt none]]]]
   else []
 
 def genValue (cls : String) (S : Schema) (i : Nat) : List Val :=
